@@ -19,10 +19,13 @@ class FuncDef:
         self.cls = cls              # ClassDef or None
         self.text = text
         self.sha = hashlib.sha256(text.encode()).hexdigest()[:16]
-        self.decorators = [ast.unparse(d) for d in node.decorator_list]
+        self.decorators = [ast.unparse(d) for d in getattr(node, 'decorator_list', [])]
 
     @property
     def key(self):
+        ko = getattr(self, "key_override", None)
+        if ko:
+            return ko
         return f"{self.module.relpath}:{self.qualname}"
 
     def __repr__(self):
@@ -39,7 +42,7 @@ class ClassDef:
         self.class_attrs = {}   # name -> ast expr
         self.attr_fields = []   # attrs-style field names, in order (attrib()/field())
         self.attr_defaults = {}
-        self.decorators = [ast.unparse(d) for d in node.decorator_list]
+        self.decorators = [ast.unparse(d) for d in getattr(node, 'decorator_list', [])]
 
     def __repr__(self):
         return f"<ClassDef {self.module.relpath}:{self.name}>"
